@@ -1,9 +1,15 @@
 /-
   oracle_c04 — line-protocol driver for Model.Connect (gocoin's block connection, `Cfg.current`) and
-  Spec.Connect (sequential ConnectBlock).  The oracle is STATEFUL: it keeps the model's record-level DB and the
-  spec's coin map; a `block` request runs both on the same candidate and advances each state iff that side
-  accepted.  Byte strings are hex, "-" = empty.
-    reset                                            -> ok
+  Spec.Connect (sequential ConnectBlock).  The oracle is STATEFUL: it keeps the model's observable chain state
+  (`Connect.Chain`: record-level DB, tip, block index) and the spec's coin map; a `block` request runs
+  `Connect.acceptBlock Cfg.current` (= `connect` + "apply and advance the head, or unlink the node and leave everything
+  alone" — the function theorems `refuse_unchanged` / `accept_advances` are about) and the spec on the same candidate;
+  the spec's state advances iff the spec accepted.  Byte strings are hex, "-" = empty.
+    reset <genesis hash>                             -> ok          (empty set, tip = genesis, index = {genesis})
+    state                                            -> <tip> <size of the index>
+    index                                            -> <n> h|h|…   (the block index)
+    inject <txid> <height> <cb:0|1> <mtpPrev> <nout> OUT*   -> ok   (files a record with `dbAdd` = do_add, and the same
+                                                        coins into the spec's map: states outside the money supply)
     block <hash> <height> <time> <mtp> <p2sh> <wit> <csv> <ntx> TX*      -> m=ok:<sigopscost>|m=err:<E> s=ok|s=err:<E>
        TX  = <txid> <version> <locktime> <nowitsize> <nin> <nout> IN* OUT*
        IN  = <prevhash> <vout> <scriptsig> <sequence> <scriptOk:0|1> <nwit> <witness item>*
@@ -15,13 +21,14 @@
     p2shsig <scriptSig>                              -> <GetP2SHSigOpCount>
     witsig <scriptSig> <pkscript> <nwit> <item>*     -> <CountWitnessSigOps>
     chktx TX                                         -> ok | err:<E>          (Tx.CheckTransaction)
+    final <height> <time> TX                         -> 0 | 1                 (Tx.IsFinal)
 -/
 import GocoinV.Spec.Connect
 import GocoinV.Base.Proto
 open GocoinV GocoinV.Connect
 
 structure OState where
-  db : DB := []
+  ch : Chain := ⟨[], [], []⟩
   su : Spec.Connect.Utxo := []
 
 abbrev P := StateT (List String) Option
@@ -99,19 +106,36 @@ def dumpSpec (u : Spec.Connect.Utxo) : String :=
 def step (st : OState) (toks : List String) : OState × String :=
   let bad := (st, "bad-op")
   match toks with
-  | ["reset"] => ({}, "ok")
+  | ["reset", g] =>
+    match Hex.decode g with
+    | some g => ({ ch := ⟨[], g, [g]⟩, su := [] }, "ok")
+    | none => bad
   | "block" :: rest =>
     match full pBlock rest with
     | none => bad
     | some b =>
-      let (db', mr) := match connect Cfg.current st.db b with
-        | .ok (d, so) => (d, s!"m=ok:{so}")
-        | .error e => (st.db, s!"m=err:{reprStr e}")
+      let (ch', r) := acceptBlock Cfg.current st.ch b
+      let mr := match r with
+        | .ok so => s!"m=ok:{so}"
+        | .error e => s!"m=err:{reprStr e}"
       let (su', sr) := match Spec.Connect.connectBlock st.su b with
         | .ok u => (u, "s=ok")
         | .error e => (st.su, s!"s=err:{reprStr e}")
-      ({ db := db', su := su' }, s!"{mr} {sr}")
-  | ["dump"] => (st, dumpDB st.db)
+      ({ ch := ch', su := su' }, s!"{mr} {sr}")
+  | ["state"] => (st, s!"{Hex.encodeRaw st.ch.tip} {st.ch.index.length}")
+  | ["index"] => (st, s!"{st.ch.index.length} {"|".intercalate (st.ch.index.map Hex.encodeRaw)}")
+  | "inject" :: rest =>
+    let p : P (Bytes × Nat × Bool × Nat × List TxOut) := do
+      let id ← phex; let h ← pnat; let cb ← pbool; let mtp ← pnat; let n ← pnat
+      let outs ← rep pOut n
+      pure (id, h, cb, mtp, outs)
+    match full p rest with
+    | some (id, h, cb, mtp, outs) =>
+      let db' := dbAdd st.ch.db { txid := id, height := h, coinbase := cb, outs := outs.map some }
+      let su' := (outs.zipIdx).foldl (fun u (o, i) => aSet u ⟨id, i⟩ ⟨o.value, o.script, h, cb, mtp⟩) st.su
+      ({ ch := { st.ch with db := db' }, su := su' }, "ok")
+    | none => bad
+  | ["dump"] => (st, dumpDB st.ch.db)
   | ["sdump"] => (st, dumpSpec st.su)
   | ["reward", h] =>
     match h.toNat? with
@@ -137,6 +161,10 @@ def step (st : OState) (toks : List String) : OState × String :=
     match full pTx rest with
     | some tx => (st, match checkTransaction Cfg.current tx with | .ok _ => "ok" | .error e => s!"err:{reprStr e}")
     | none => bad
+  | "final" :: h :: t :: rest =>
+    match h.toNat?, t.toNat?, full pTx rest with
+    | some h, some t, some tx => (st, Proto.boolStr (isFinal tx h t))
+    | _, _, _ => bad
   | _ => bad
 
 def main : IO Unit := Proto.serve ({} : OState) step
